@@ -1325,7 +1325,7 @@ class CoxEstimator(LinearModel):
         check_consistent_length(X, y)
 
         # init datafit and penalty
-        datafit = Cox(self.method)
+        datafit = Cox(use_efron=self.method == "efron")
 
         if self.l1_ratio == 1.:
             penalty = L1(self.alpha)
